@@ -9,14 +9,14 @@ WT=/tmp/wt-regress-$$
 OUT=/tmp/seed-regress-out-$$
 git -C /repo worktree add -q --detach $WT HEAD || exit 2
 trap 'git -C /repo worktree remove --force $WT >/dev/null 2>&1; rm -rf $OUT' EXIT
-mkdir -p $OUT; cp /verif/known_findings.json $OUT/
-IDS="${*:-$(ls -d /verif/seeded/*/ | xargs -n1 basename | sort)}"
+mkdir -p $OUT; cp ${VERIF_HOME:-/verif}/known_findings.json $OUT/
+IDS="${*:-$(ls -d ${VERIF_HOME:-/verif}/seeded/*/ | xargs -n1 basename | sort)}"
 miss=0
 for id in $IDS; do
-  d=/verif/seeded/$id
+  d=${VERIF_HOME:-/verif}/seeded/$id
   prop=$(python3 -c "import json;print(json.load(open('$d/meta.json'))['property'])")
   if ! git -C $WT apply $d/patch.diff 2>/dev/null; then echo "$id STALE (patch does not apply to HEAD)"; continue; fi
-  res=$(VERIF_REPO=$WT /verif/bin/check $prop quick -verif $OUT 2>&1)
+  res=$(VERIF_REPO=$WT ${VERIF_HOME:-/verif}/bin/check $prop quick -verif $OUT 2>&1)
   rc=$?
   rules=$(echo "$res" | grep -oE '^\s+\S+:[0-9]+ R-C[0-9]+-[0-9]+' | awk '{print $2}' | sort -u | paste -sd,)
   if [ $rc -eq 1 ] && echo "$res" | grep -q "^VIOLATION property=$prop"; then echo "$id detected by $rules"; else echo "$id MISSED (rc=$rc)"; miss=1; fi
